@@ -83,6 +83,10 @@ impl Val {
             Val::StrRaw(b) | Val::Ascii(b) | Val::Raw(b) => b.clone(),
         }
     }
+    /// the 16 bit length field of a variable length argument cannot hold this value (strings: incl. the NUL)
+    pub fn unrepresentable(&self) -> bool {
+        self.is_var_len() && self.raw(false).len() > 0xffff
+    }
     pub fn is_var_len(&self) -> bool {
         matches!(self, Val::Str(_) | Val::StrRaw(_) | Val::Ascii(_) | Val::Raw(_))
     }
@@ -192,7 +196,8 @@ fn gen_string(rng: &mut Rng) -> String {
 }
 fn gen_bytes(rng: &mut Rng, huge: bool) -> Vec<u8> {
     if huge && rng.chance(1, 50) {
-        let n = 65534 - rng.usize_below(3);
+        // around the limit of the 16 bit length field (65536 cannot be represented)
+        let n = *rng.pick(&[65532usize, 65533, 65534, 65535, 65535, 65536]);
         return rng.bytes(n);
     }
     match rng.below(5) {
@@ -227,7 +232,8 @@ pub fn gen_val(rng: &mut Rng, serde_compatible: bool, huge: bool) -> Val {
         10 => Val::F64(if rng.chance(1, 2) { rng.next_u64() } else { *rng.pick(&[0u64, 1 << 63, 0x7ff0_0000_0000_0000, 0xfff0_0000_0000_0000, 0x7ff8_0000_0000_0000, 0x3ff0_0000_0000_0000, 1, 0x7fef_ffff_ffff_ffff]) }),
         11 => {
             if huge && rng.chance(1, 60) {
-                Val::Str("x".repeat(65533))
+                // incl. the NUL: 65534 / 65535 fit into the length field, 65536 / 65537 do not
+                Val::Str("x".repeat(*rng.pick(&[65533usize, 65534, 65534, 65535, 65535, 65536])))
             } else {
                 Val::Str(gen_string(rng))
             }
@@ -287,9 +293,8 @@ fn decode(msg: &DltMessage) -> Vec<(u32, Vec<u8>)> {
 }
 
 fn check_full(vals: &[Val], payload: Vec<u8>, be: bool, enc: &str) -> Option<(String, String)> {
-    if payload.len() > 65535 - 22 {
-        return None; // cannot be carried by one message
-    }
+    // (a payload of more than 65535-22 bytes cannot be carried by one message, but encode/decode agreement is
+    // about the payload: the argument iterator does not look at the header length)
     let msg = mk_verbose_msg(payload, vals.len() as u8, be);
     let dec = decode(&msg);
     if dec.len() != vals.len() {
@@ -343,6 +348,18 @@ pub fn run(p: &Params) -> Report {
         let be = rng.chance(1, 2);
         rep.inc("evaluations");
         rep.add("arguments", n as u64);
+        if vals.iter().any(|v| v.unrepresentable()) {
+            // a value whose length does not fit the 16 bit length field: the library's encoder has to refuse it
+            rep.inc("unrepresentable_lengths_offered");
+            if serde_ok {
+                match crate::guard::catch(|| encode_serde(&vals)) {
+                    Err(pi) => rep.violation(&pi.class(), format!("panic at {}:{} {}", pi.file, pi.line, pi.msg), case_json(&vals, be)),
+                    Ok(Some(pl)) => rep.violation("serde:accepted-unrepresentable-length", format!("the serializer returned Ok ({} bytes) for {:?} although a length does not fit into 16 bit", pl.len(), vals.iter().map(|v| v.short()).collect::<Vec<_>>()), case_json(&vals, be)),
+                    Ok(None) => rep.inc("unrepresentable_lengths_refused"),
+                }
+            }
+            continue;
+        }
         let res = crate::guard::catch(|| -> Option<(String, String)> {
             // (c) harness encoder, both byte orders
             for b in [be, !be] {
